@@ -183,6 +183,118 @@ def vector_matmul(records, lib, validator, on_fail, limit=400):
     return n
 
 
+def _coord_curve(r, R, k):
+    """coordinate k of a 2-D result curve as a scalar projection + evaluator"""
+    proj = r.project2(R)[k]
+    return {"U": proj["U"], "P": proj["P"], "W": proj["W"]}, (lambda u: R(u)[k])
+
+
+def vector_scalar_ops(records, lib, validator, on_fail, limit=300):
+    """s*A, A*s, A/s, s+A ... and M @ A, A @ M on 2-D curves; every output coordinate is one event"""
+    import numpy as np
+    r = VectorReplayer(lib, "fraction")
+    groups, n = {}, 0
+    for t in records:
+        a = t["act"]
+        if a["name"] != "CvScalar" or t.get("ovf") or a["op"] == "s/A":
+            continue
+        A = t["pre"][a["obj"]]
+        groups.setdefault(json.dumps([A["U"], A["W"], a["op"], a.get("s")]), {}).setdefault(json.dumps(A["P"]), t)
+    strip = lambda o: {"U": o["U"], "P": o["P"], "W": o["W"]}
+    done_linear = set()
+    for g in groups.values():
+        ts = list(g.values())
+        if len(ts) < 2 or n >= limit:
+            continue
+        t1, t2 = ts[0], ts[1]
+        a = t1["act"]
+        A1, A2 = t1["pre"][a["obj"]], t2["pre"][a["obj"]]
+        live = {a["obj"]: r.build2(A1, A2)}
+        cls, val, exc = r.execute(live, a)
+        n += 1
+        if cls != "ok":
+            on_fail(t1, [f"{a['op']} on a 2-D curve raised {type(exc).__name__}: {exc}"])
+            continue
+        R = val["curve"]
+        for k, Ak in enumerate((A1, A2)):
+            try:
+                d, ev = _coord_curve(r, R, k)
+                dv = r.observed_values("CvScalar", strip(Ak), {"U": [], "P": [], "W": []}, d, ev)
+            except Exception as e:
+                on_fail(t1, [f"{a['op']} on a 2-D curve: result cannot be read back exactly: {type(e).__name__}: {e}"])
+                break
+            act = {k2: v for k2, v in a.items() if k2 not in ("obj", "form")}
+            validator.add(act, c=strip(Ak), d=d, cls="ok", tag=t1, dv=dv)
+        # matrix forms, once per (U, W)
+        key = json.dumps([A1["U"], A1["W"]])
+        if key in done_linear:
+            continue
+        done_linear.add(key)
+        M = np.array([[Fraction(2), Fraction(-1, 2)], [Fraction(1, 3), Fraction(3)]], dtype=object)
+        for form in ("A@M", "M@A"):
+            A = r.build2(A1, A2)
+            try:
+                R = A @ M if form == "A@M" else M @ A
+            except Exception as e:
+                # M @ A with a numpy M dispatches to numpy first; only the documented forms are demanded
+                if form == "M@A":
+                    continue
+                on_fail(t1, [f"{form} raised {type(e).__name__}: {e}"])
+                continue
+            if not isinstance(R, r.Curve):
+                continue
+            n += 1
+            for k in (0, 1):
+                ca, cb = (M[0][k], M[1][k]) if form == "A@M" else (M[k][0], M[k][1])
+                try:
+                    d, ev = _coord_curve(r, R, k)
+                    dv = r.observed_values("CvScalar", strip(A1), {"U": [], "P": [], "W": []}, d, ev)
+                except Exception as e:
+                    on_fail(t1, [f"{form}: result cannot be read back exactly: {type(e).__name__}: {e}"])
+                    break
+                validator.add({"name": "CvLinear", "form": form, "a": rat(ca), "b": rat(cb)}, c=strip(A1), b=strip(A2),
+                              d=d, cls="ok", tag=t1, dv=dv)
+    return n
+
+
+def vector_fitpoints(records, lib, validator, on_fail):
+    """fit_points with 2-D data: two data vectors for the same nodes are fitted at once"""
+    import numpy as np
+    r = VectorReplayer(lib, "fraction")
+    groups, n = {}, 0
+    for t in records:
+        a = t["act"]
+        if a["name"] != "CvFitPoints" or t.get("ovf") or t["ret"]["class"] != "ok":
+            continue
+        pre = t["pre"][a["obj"]]
+        groups.setdefault(json.dumps([pre["U"], pre["W"], a["nodes"], a["dflt"]]), {}).setdefault(json.dumps(a["data"]), t)
+    for g in groups.values():
+        ts = list(g.values())
+        if len(ts) < 2:
+            continue
+        t1, t2 = ts[0], ts[1]
+        a = t1["act"]
+        pre = t1["pre"][a["obj"]]
+        S = r.Curve(r.mode.nums(pre["U"]))
+        if pre["W"]:
+            S.weights = r.mode.pts(pre["W"])
+        data = [np.array([fr(x), fr(y)], dtype=object) for x, y in zip(t1["act"]["data"], t2["act"]["data"])]
+        n += 1
+        try:
+            if a["dflt"]:
+                S.fit_points(data)
+            else:
+                S.fit_points(data, r.mode.nums(a["nodes"]))
+            D = r.project2(S)
+        except Exception as e:
+            on_fail(t1, [f"fit_points with 2-D data raised or returned inexact numbers: {type(e).__name__}: {e}"])
+            continue
+        for k, t in enumerate((t1, t2)):
+            validator.add({"name": "CvFitPoints", "kv": pre["U"], "weights": pre["W"], "nodes": a["nodes"], "data": t["act"]["data"]},
+                          d={"U": D[k]["U"], "P": D[k]["P"], "W": D[k]["W"]}, tag=t)
+    return n
+
+
 def vector_replay(records, lib, on_fail):
     """returns the number of paired calls executed"""
     r = VectorReplayer(lib, "fraction")
